@@ -154,8 +154,8 @@ impl Property for C11 {
     }
     fn cases(&self, tier: Tier) -> u64 {
         match tier {
-            Tier::Quick => 8000,
-            Tier::Thorough => 16 * 40000,
+            Tier::Quick => 64000,
+            Tier::Thorough => 64000 * 100,
         }
     }
     fn required_classes(&self) -> Vec<&'static str> {
@@ -240,6 +240,13 @@ impl Property for C11 {
                         RealItem::Panic(p) => {
                             out.fail(p.key(), format!("iterating an accepted test panicked at item {i}: {p}"));
                             return out;
+                        }
+                        // a name that is a variable for the scope rule but is never assigned on
+                        // the executed path (its `let` sits in a while body that did not run) is
+                        // a run-time condition (C10), not a mismatch between test and list
+                        RealItem::RuntimeErr(m) if m.contains("has not been assigned a value") => {
+                            out.class("unassigned-variable-at-runtime");
+                            break;
                         }
                         o => {
                             out.fail("c11:accepted-but-errors", format!("accepted test, honest driver, total expressions: item {i} is {}", o.short()));
